@@ -1347,6 +1347,72 @@ def task_e2e(chunk, nchunks, seed):
         shutil.rmtree(root, ignore_errors=True)
 
 
+E2E_HASH_SCRIPT = r"""
+import sys, json, random
+import numpy
+argv, npseed = json.loads(sys.argv[1])
+numpy.random.seed(npseed); random.seed(npseed)
+sys.argv = list(argv)
+import io, contextlib, warnings
+warnings.simplefilter("ignore")
+from gaddlemaps import _cli
+with contextlib.redirect_stdout(io.StringIO()):
+    _cli.main()
+print("C20DONE")
+"""
+
+ORDER_PROBE = "import sys, json; print(json.dumps(list(set(json.loads(sys.argv[1])))))"
+
+
+def task_e2e_hashseed(seed, n_probe=24):
+    """The command line with three explicit species, run in fresh interpreters under different PYTHONHASHSEED values and the same
+    numpy/random seed, must write the same bytes ('for the same random seed, the same output file').  The hash seeds are chosen
+    adversarially: among the first n_probe, those under which a set of the start-topology arguments iterates in pairwise different orders."""
+    t0 = time.time()
+    oid = f"{PROP}/main/ensures.same_output_for_same_seed_whatever_the_interpreter_hash_seed/explicit-triples[3 species]"
+    root = tempfile.mkdtemp(prefix="c20_")
+    try:
+        prepare_main_root(root)
+        case = {"explicit": ["A", "B", "C"], "auto": False, "exclude": None, "scale": 0.4, "outfile": None, "style": "rel-sub"}
+        run_dir, argv, exp = main_env(case, root)
+        tops = [argv[i + 1] for i, a in enumerate(argv) if a == "--mol"]
+        orders = {}
+        for h in range(n_probe):
+            pr = subprocess.run([sys.executable, "-c", ORDER_PROBE, json.dumps(tops)], env=dict(os.environ, PYTHONHASHSEED=str(h)),
+                                capture_output=True, text=True, timeout=60)
+            try:
+                orders.setdefault(tuple(json.loads(pr.stdout)), h)
+            except Exception:
+                continue
+        seeds = sorted(orders.values())[:4] or [0, 1]
+        if len(seeds) < 2:
+            seeds = [0, 1]
+        outs = {}
+        for h in seeds:
+            clean_outputs(root)
+            pr = subprocess.run([sys.executable, "-c", E2E_HASH_SCRIPT, json.dumps([argv, 12345 + seed])], cwd=run_dir,
+                                env=dict(os.environ, PYTHONHASHSEED=str(h)), capture_output=True, text=True, timeout=600)
+            if "C20DONE" not in pr.stdout or not os.path.isfile(exp["out_abs"]):
+                return [ob(oid, "undecided", reason=f"command line did not finish under PYTHONHASHSEED={h}: rc={pr.returncode} {pr.stderr[-300:]}", **KW)]
+            with open(exp["out_abs"]) as fh:
+                outs[h] = fh.read()
+        clean_outputs(root)
+        ref_h = seeds[0]
+        bad = [h for h in seeds[1:] if outs[h] != outs[ref_h]]
+        secs = time.time() - t0
+        if bad:
+            a, b = outs[ref_h].splitlines(), outs[bad[0]].splitlines()
+            diff = next((i for i, (x, y) in enumerate(zip(a, b)) if x != y), min(len(a), len(b)))
+            what = (f"same arguments, numpy/random seed {12345 + seed}: the output under PYTHONHASHSEED={bad[0]} differs from the one under "
+                    f"PYTHONHASHSEED={ref_h} at line {diff + 1}: {a[diff] if diff < len(a) else '<eof>'!r} vs {b[diff] if diff < len(b) else '<eof>'!r}")
+            return [ob(oid, "refuted", cex={"kind": "e2e-hash", "case": case, "npseed": 12345 + seed, "hashseeds": [ref_h, bad[0]], "observed": what,
+                                            "signature": "e2e:hashseed"}, reason=what, evaluations=len(seeds), nontrivial=len(seeds), secs=secs, **KW)]
+        return [ob(oid, "discharged", sample={"hash_seeds": seeds, "distinct_set_orders_of_the_start_topologies": len(orders), "output_bytes": len(outs[ref_h])},
+                   evaluations=len(seeds), nontrivial=len(seeds), secs=secs, **KW)]
+    finally:
+        shutil.rmtree(root, ignore_errors=True)
+
+
 # ---------------------------------------------------------------------------
 # tasks
 
@@ -1436,6 +1502,7 @@ def _tasks_bounded(prop, tier, seed):
     ne = 4
     for c in range(ne):
         ts.append((f"main/e2e/{c}", task_e2e, (c, ne, seed), 900.0))
+    ts.append(("main/e2e-hashseed", task_e2e_hashseed, (seed, 24 if not thorough else 64), 900.0))
     return ts
 
 
@@ -1493,6 +1560,11 @@ def _replay_bounded(prop, cex):
                     "inputs": cex}
         finally:
             shutil.rmtree(root, ignore_errors=True)
+    if kind == "e2e-hash":
+        r = task_e2e_hashseed(cex["npseed"] - 12345)
+        bad = [o for o in r if o.get("status") == "refuted"]
+        return {"reproduced": bool(bad), "observed": bad[0].get("reason") if bad else "outputs identical under the probed hash seeds",
+                "expected": "the same bytes under every interpreter hash seed for the same numpy/random seed", "inputs": cex}
     return {"reproduced": False, "note": f"unknown counterexample kind {kind!r}", "inputs": cex}
 
 
